@@ -9,8 +9,11 @@ package c33
 import (
 	"fmt"
 	"sort"
+	"strconv"
+	"strings"
 
 	"verif/h/crashfs"
+	"verif/h/ev"
 )
 
 const (
@@ -21,7 +24,7 @@ const (
 
 // Step is one client request of a workload.
 type Step struct {
-	Op     string `json:"op"` // topic | parts | produce | commit | txcommit | end
+	Op     string `json:"op"` // topic | parts | produce | commit | txcommit | end | cfg
 	Topic  string `json:"topic,omitempty"`
 	Parts  int32  `json:"parts,omitempty"`  // topic: partition count; parts: new total count
 	Part   int32  `json:"part,omitempty"`   // produce/commit/txcommit
@@ -30,6 +33,14 @@ type Step struct {
 	Group  string `json:"group,omitempty"`  // commit/txcommit
 	Offset int64  `json:"offset,omitempty"` // commit/txcommit
 	Commit bool   `json:"commit,omitempty"` // end: commit (true) or abort
+	Pad    int    `json:"pad,omitempty"`    // produce: further bytes in the first record's value (batch size)
+	// cfg: change the dynamic configuration of Topic. Legacy false:
+	// IncrementalAlterConfigs SET Key=Val, or DELETE Key when Del. Legacy true:
+	// AlterConfigs, the configuration becomes exactly {Key: Val} (Del: empty).
+	Key    string `json:"key,omitempty"`
+	Val    string `json:"val,omitempty"`
+	Del    bool   `json:"del,omitempty"`
+	Legacy bool   `json:"legacy,omitempty"`
 }
 
 // Script is a whole workload: producers, requests, broker configuration. It ends
@@ -50,6 +61,10 @@ func (s Script) String() string {
 		case "parts":
 			out += fmt.Sprintf(" parts(%s,%d)", st.Topic, st.Parts)
 		case "produce":
+			if st.Pad > 0 {
+				out += fmt.Sprintf(" produce(p%d,%s-%d,n=%d,pad=%d)", st.Prod, st.Topic, st.Part, st.N, st.Pad)
+				break
+			}
 			out += fmt.Sprintf(" produce(p%d,%s-%d,n=%d)", st.Prod, st.Topic, st.Part, st.N)
 		case "commit":
 			out += fmt.Sprintf(" commit(%s,%s-%d,%d)", st.Group, st.Topic, st.Part, st.Offset)
@@ -57,9 +72,23 @@ func (s Script) String() string {
 			out += fmt.Sprintf(" txcommit(p%d,%s,%s-%d,%d)", st.Prod, st.Group, st.Topic, st.Part, st.Offset)
 		case "end":
 			out += fmt.Sprintf(" end(p%d,commit=%v)", st.Prod, st.Commit)
+		case "cfg":
+			out += " " + st.cfgString()
 		}
 	}
 	return out
+}
+
+func (st Step) cfgString() string {
+	switch {
+	case st.Legacy && st.Del:
+		return fmt.Sprintf("cfg(%s,AlterConfigs{})", st.Topic)
+	case st.Legacy:
+		return fmt.Sprintf("cfg(%s,AlterConfigs{%s=%s})", st.Topic, st.Key, st.Val)
+	case st.Del:
+		return fmt.Sprintf("cfg(%s,delete %s)", st.Topic, st.Key)
+	}
+	return fmt.Sprintf("cfg(%s,set %s=%s)", st.Topic, st.Key, st.Val)
 }
 
 // ---- model --------------------------------------------------------------------
@@ -83,7 +112,18 @@ type prodAck struct {
 	Kind  int    `json:"kind"`
 	Ack   int    `json:"ack"`
 	Sent  int    `json:"sent,omitempty"`
-	Txn   int    `json:"txn,omitempty"` // transactional produce: number (from 1) of its transaction within the history
+	Txn   int    `json:"txn,omitempty"`  // transactional produce: number (from 1) of its transaction within the history
+	Size  int    `json:"size,omitempty"` // bytes of the batch as sent (what max.message.bytes is compared with)
+}
+
+// cfgAck is one acknowledged (or in-flight) change of a topic's dynamic
+// configuration. After is the whole explicitly-set configuration of the topic
+// once the request is applied (canonical form of canonCfg).
+type cfgAck struct {
+	What  string `json:"what"`
+	After string `json:"after"`
+	Ack   int    `json:"ack"`
+	Sent  int    `json:"sent,omitempty"`
 }
 
 type commitAck struct {
@@ -112,15 +152,26 @@ type probe struct {
 
 // Model is everything the oracle knows about one executed workload.
 type Model struct {
-	Script     Script                 `json:"script"`
-	Topics     map[string]*topicHist  `json:"topics"`
-	Produced   []prodAck              `json:"produced"`
-	Commits    map[string][]commitAck `json:"commits"` // "group|topic|part" -> commits in issue order
-	Ends       []endAck               `json:"ends"`
-	Ref        map[string][][]byte    `json:"ref"` // "topic-part" -> batches of the uncrashed run's final log
-	Probes     []probe                `json:"probes,omitempty"`
-	CloseStart int                    `json:"close_start"` // op-log length when Close was called
-	NOps       int                    `json:"nops"`
+	Script   Script                 `json:"script"`
+	Topics   map[string]*topicHist  `json:"topics"`
+	Produced []prodAck              `json:"produced"`
+	Commits  map[string][]commitAck `json:"commits"` // "group|topic|part" -> commits in issue order
+	Ends     []endAck               `json:"ends"`
+	// Cfgs: topic -> configuration changes in issue order. CfgBase: topic -> the
+	// explicitly-set configuration before the first of them ("" if absent). Both
+	// cover what the CURRENT directory can show: at the start of a session that
+	// follows a crash the history of a topic is replaced by the configuration the
+	// recovered cluster shows (which the crash oracle has just accepted).
+	Cfgs    map[string][]cfgAck `json:"cfgs,omitempty"`
+	CfgBase map[string]string   `json:"cfg_base,omitempty"`
+	// BrokerMax is message.max.bytes of the broker configuration the session runs
+	// with (0: kfake's default). Used for class counters and for skipping
+	// produces the broker would refuse, never for an assertion.
+	BrokerMax  int                 `json:"broker_max,omitempty"`
+	Ref        map[string][][]byte `json:"ref"` // "topic-part" -> batches of the uncrashed run's final log
+	Probes     []probe             `json:"probes,omitempty"`
+	CloseStart int                 `json:"close_start"` // op-log length when Close was called
+	NOps       int                 `json:"nops"`
 
 	// Multi-session histories (sessions_test.go). Sessions > 0: the model is the
 	// union of Sessions sessions on one directory; Script holds the requests of the
@@ -217,10 +268,86 @@ type runner struct {
 	exists  map[string]int32 // topic -> partition count the running cluster shows
 	txns    int              // transactions begun so far
 	skipped int              // steps skipped because an earlier crash took their target away
+	// cfgNow: topic -> the explicitly-set configuration the running cluster has
+	// (follows the acknowledged cfg steps; after a crash: what the recovered
+	// cluster shows, see resync)
+	cfgNow map[string]map[string]string
+}
+
+// kfake's default for max.message.bytes / message.max.bytes.
+const defMaxMessageBytes = 1048588
+
+func parseCfg(canon string) map[string]string {
+	out := map[string]string{}
+	if canon == "" {
+		return out
+	}
+	for _, kv := range strings.Split(canon, ",") {
+		k, v, _ := strings.Cut(kv, "=")
+		out[k] = v
+	}
+	return out
+}
+
+// maxBytesOf: the produce size limit that follows from a topic's explicitly-set
+// configuration and the broker-level message.max.bytes (0: default).
+func maxBytesOf(topicCfg map[string]string, brokerMax int) int {
+	if v, ok := topicCfg["max.message.bytes"]; ok {
+		if n, err := strconv.Atoi(v); err == nil {
+			return n
+		}
+	}
+	if brokerMax > 0 {
+		return brokerMax
+	}
+	return defMaxMessageBytes
+}
+
+func brokerMaxOf(bcfg map[string]string) int {
+	n, _ := strconv.Atoi(bcfg["message.max.bytes"])
+	return n
+}
+
+// cfgAt returns the explicitly-set configuration of the topic that is required
+// at crash point k: the state after the last change acknowledged at index <= k.
+func (m *Model) cfgAt(topic string, k int) string {
+	cur := m.CfgBase[topic]
+	for _, c := range m.Cfgs[topic] {
+		if c.Ack <= k {
+			cur = c.After
+		}
+	}
+	return cur
+}
+
+// cfgAcksUpTo counts the configuration changes acknowledged at index <= k.
+func (m *Model) cfgAcksUpTo(k int) int {
+	n := 0
+	for _, h := range m.Cfgs {
+		for _, c := range h {
+			if c.Ack <= k {
+				n++
+			}
+		}
+	}
+	return n
+}
+
+// oversizedAt reports whether, at crash point k, some acknowledged batch is
+// larger than the max.message.bytes then in force for its topic (the limit was
+// lowered after the batch was accepted).
+func (m *Model) oversizedAt(k int) bool {
+	for _, a := range m.Produced {
+		if a.Ack <= k && a.Size > maxBytesOf(parseCfg(m.cfgAt(a.Topic, k)), m.BrokerMax) {
+			return true
+		}
+	}
+	return false
 }
 
 func newRunner(name string, kinds []int, bcfg map[string]string) *runner {
-	r := &runner{name: name, bcfg: bcfg, m: &Model{Topics: map[string]*topicHist{}, Commits: map[string][]commitAck{}, Ref: map[string][][]byte{}}}
+	r := &runner{name: name, bcfg: bcfg, cfgNow: map[string]map[string]string{},
+		m: &Model{Topics: map[string]*topicHist{}, Commits: map[string][]commitAck{}, Ref: map[string][][]byte{}, Cfgs: map[string][]cfgAck{}, CfgBase: map[string]string{}, BrokerMax: brokerMaxOf(bcfg)}}
 	for i, k := range kinds {
 		p := &prodState{kind: k, txid: fmt.Sprintf("tx-%d", i)}
 		p.reset()
@@ -328,11 +455,19 @@ func (r *runner) step(n *node, fs *crashfs.FS, si int, st Step) error {
 		if p.kind != prodPlain {
 			seq = p.seq[key]
 		}
+		batch := craftBatchPad(r.tag(si), st.N, st.Pad, p.pid, p.epoch, seq, p.kind == prodTxn, baseTimestamp+int64(1000*r.sess+si))
+		if len(batch) > maxBytesOf(r.cfgNow[st.Topic], m.BrokerMax) {
+			// the broker would (rightly) refuse it: max.message.bytes was lowered
+			ev.Class("produce_not_sent_above_max_message_bytes")
+			return nil
+		}
+		if st.Pad > 0 {
+			ev.Class("produce_padded_batch")
+		}
 		if p.kind == prodTxn && !p.inTxn {
 			r.txns++
 			p.inTxn, p.txn = true, r.txns
 		}
-		batch := craftBatch(r.tag(si), st.N, p.pid, p.epoch, seq, p.kind == prodTxn, baseTimestamp+int64(1000*r.sess+si))
 		code, base, err := n.produce(st.Topic, m.Topics[st.Topic].ID, st.Part, txidPtr(p), batch)
 		if err != nil {
 			return err
@@ -340,7 +475,7 @@ func (r *runner) step(n *node, fs *crashfs.FS, si int, st Step) error {
 		if code != 0 {
 			return r.rejected(si, fmt.Sprintf("Produce %s kind %d (producer id %d epoch %d first sequence %d)", key, p.kind, p.pid, p.epoch, seq), code)
 		}
-		m.Produced = append(m.Produced, prodAck{st.Topic, st.Part, base, st.N, p.kind, fs.Len(), sent, p.txn})
+		m.Produced = append(m.Produced, prodAck{st.Topic, st.Part, base, st.N, p.kind, fs.Len(), sent, p.txn, len(batch)})
 		if p.kind != prodPlain {
 			p.seq[key] = seq + int32(st.N)
 			p.last[key] = batch
@@ -417,6 +552,52 @@ func (r *runner) step(n *node, fs *crashfs.FS, si int, st Step) error {
 			p.seq = map[string]int32{}
 			p.last = map[string][]byte{}
 		}
+	case "cfg":
+		if !r.has(st.Topic, 0) {
+			return skip()
+		}
+		next := map[string]string{}
+		if !st.Legacy {
+			for k, v := range r.cfgNow[st.Topic] {
+				next[k] = v
+			}
+		}
+		var code int16
+		var err error
+		switch {
+		case st.Legacy:
+			if !st.Del {
+				next[st.Key] = st.Val
+			}
+			ev.Class("cfg_AlterConfigs_replaces_all")
+			code, err = n.legacyAlterTopic(st.Topic, next)
+		case st.Del:
+			delete(next, st.Key)
+			ev.Class("cfg_incremental_delete")
+			code, err = n.incrAlterTopic(st.Topic, st.Key, nil)
+		default:
+			next[st.Key] = st.Val
+			ev.Class("cfg_incremental_set")
+			v := st.Val
+			code, err = n.incrAlterTopic(st.Topic, st.Key, &v)
+		}
+		if err != nil {
+			return err
+		}
+		if code != 0 {
+			return r.rejected(si, st.cfgString(), code)
+		}
+		if st.Key == "max.message.bytes" || st.Legacy {
+			was, now := maxBytesOf(r.cfgNow[st.Topic], m.BrokerMax), maxBytesOf(next, m.BrokerMax)
+			switch {
+			case now < was:
+				ev.Class("cfg_max_message_bytes_lowered")
+			case now > was:
+				ev.Class("cfg_max_message_bytes_raised")
+			}
+		}
+		m.Cfgs[st.Topic] = append(m.Cfgs[st.Topic], cfgAck{What: st.cfgString(), After: canonCfg(next), Ack: fs.Len(), Sent: sent})
+		r.cfgNow[st.Topic] = next
 	default:
 		return infraf("unknown step %q", st.Op)
 	}
